@@ -58,9 +58,9 @@ pub fn load(case: &Value) -> Result<Compiler, Value> {
         // the same documents, in one of several YAML dresses and through one of the public ways of loading them
         // (chosen by the shape of the case, so that a case always takes the same road)
         let shape = rules.len() as u64 * 7 + case["events"].as_array().map(|a| a.len()).unwrap_or(0) as u64 + rules.first().and_then(|r| r["name"].as_str()).map(|n| n.len() as u64).unwrap_or(0);
-        let style = [0u64, 0, 1, 2, 5, 9, 3, 0][(shape % 8) as usize];
+        let style = [0u64, 0, 1, 2, 5, 9, 3, 0, 16, 48, 49, 21][(shape % 12) as usize];
         let text = crate::doc::rules_yaml_styled(&rules, style);
-        match (shape / 8) % 3 {
+        match (shape / 12) % 3 {
             0 => c.load_rules_from_str(&text).map_err(|e| json!({"load": compiler_err_kind(&e)}))?,
             1 => c.load_rules_from_reader(std::io::Cursor::new(text.into_bytes())).map_err(|e| json!({"load": compiler_err_kind(&e)}))?,
             _ => {
@@ -108,5 +108,7 @@ pub fn exec(case: &Value) -> Value {
             Err(e) => outs.push(json!({ "badevent": e })),
         }
     }
-    json!({ "scans": outs })
+    // what the engine holds, through the public getters
+    let rules: Vec<Value> = eng.compiled_rules().iter().map(|r| json!([r.name(), r.ty().as_str(), r.severity(), r.is_filter(), r.is_detection()])).collect();
+    json!({ "scans": outs, "engine": {"count": eng.rules_count(), "is_empty": eng.is_empty(), "rules": rules} })
 }
